@@ -40,7 +40,7 @@ PROPS = {
         "lean_modules": ["StimModel.Props.C11", "StimModel.Props.C11b", "StimModel.Generated.GateThms", "StimModel.Generated.PrependThms"],
         "areas": [
             {"area": "gatetab", "n": 1, "extra": ["Prepend"]},
-            {"area": "tableau", "n": {"quick": 400, "thorough": 20000}},
+            {"area": "tableau", "n": {"quick": 400, "thorough": 20000}, "timeout": 600},
             {"area": "amps", "n": {"quick": 450, "thorough": 9000}},
         ],
         "rule": "Tableau::random and circuit-generated tableaus (sizes 1..6 and 63..65,127..129), 3 word widths: apply, then, inverse (oracle: both compositions are the identity), "
@@ -75,7 +75,7 @@ PROPS = {
             {"area": "bits", "n": {"quick": 2400, "thorough": 60000}},
             {"area": "xorvec", "n": {"quick": 1200, "thorough": 40000}},
             {"area": "pauli", "n": {"quick": 900, "thorough": 20000}},
-            {"area": "tableau", "n": {"quick": 150, "thorough": 3000}},
+            {"area": "tableau", "n": {"quick": 150, "thorough": 3000}, "timeout": 600},
             {"area": "tsim", "shrink": True, "n": {"quick": 150, "thorough": 3000}},
         ],
         "rule": "simd_bits / simd_bits_range_ref / simd_bit_table operations (xor, and, or, not, popcnt, not_zero, countr_zero, intersects, subset, shifts, add, sub, truncated overwrite, "
